@@ -168,6 +168,9 @@ def go (skip : Bool) : Option Ctr → List Ctr → Except String (List Out)
       | .error e => .error e
       | .ok more => .ok (outs ++ more)
 
+/-- one pid's counter sequence from a fresh context -/
+def computeRank (skip : Bool) (l : List Ctr) : Except String (List Out) := go skip none l
+
 /-- the stage on a stream of counters of several pids: `self.prev` keyed by pid -/
 def goAll (skip : Bool) : (Int → Option Ctr) → List Ctr → Except String (List Out)
   | _, [] => .ok []
